@@ -149,7 +149,7 @@ Definition hz (l : list Z) (e : Z) : bool := (hash_ztuple l =? e) && (hash_ztupl
 
 def corr_pyhash(ck):
     rng = random.Random(f'{ck.seed}:pyhash')
-    n = 2000 if ck.tier == 'quick' else 40000
+    n = 1200 if ck.tier == 'quick' else 40000
     vals = list(BOUNDARY) + [True, False, (), (True,), (False, 0), ((),), ((), ()), (-1,), (-1, -1), (P61,), ((P61, -1), 2 ** 63)]
     vals += [(x, y) for x in BOUNDARY[:12] for y in BOUNDARY[:12]]
     while len(vals) < n:
@@ -271,8 +271,9 @@ BAD_LENGTHS = [0, -1, -1024]
 NABS = [1, 2, 3, 4, 1, 2, 3, 4, 0, -1, 5, 7]
 NBPS = [0, 1, 2, 3, 4, 5, 0, 4, -1, 9]
 # volume limits of one case (the Coq model hashes about 1000 tuple items per second under vm_compute)
-MAX_PATHS_CHAINS = 2500        # _chains compared when it has at most this many chains
-MAX_PATHS_FRAGS = 700          # _fragments compared (dict_append is quadratic in the number of keys)
+MAX_PATHS_CHAINS = 1000        # _chains compared when it has at most this many chains
+MAX_PATHS_SEQ = 400            # the add sequence (every chain twice) compared
+MAX_PATHS_FRAGS = 300          # _fragments compared (dict_append is quadratic in the number of keys)
 MOL_BUDGET_SMALL = 2000        # hashed tuple items per molecule of at most 10 atoms
 MOL_BUDGET_LARGE = 900         # ... per larger molecule
 
@@ -297,6 +298,7 @@ def mol_cases(ck, tag, g, m, rng):
     n = len(m._atoms)
     small = n <= 10
     budget = MOL_BUDGET_SMALL if small else MOL_BUDGET_LARGE       # hashed items per molecule
+    scale = 1 if ck.tier == 'quick' else 3
 
     def affordable(lanes):
         return spent[0] + lanes <= budget
@@ -311,18 +313,18 @@ def mol_cases(ck, tag, g, m, rng):
     hashed = 0
     for lo, hi in pick:
         ch = m._chains(lo, hi)
-        if len(ch) > MAX_PATHS_CHAINS:
+        if len(ch) > MAX_PATHS_CHAINS * scale:
             ck.count('fp:skipped (too many chains)')
             continue
         a = f'{g} {zraw(lo)} {zraw(hi)}'
         seq = chains_sequence(m, lo, hi)
-        if small or seq is None:        # (for a larger molecule the add sequence, which determines the set, is compared instead)
+        if small or seq is None or len(ch) > MAX_PATHS_SEQ * scale:        # (for a larger molecule the add sequence, which determines the set, is compared instead)
             add(f'chains_ok {a} {pl(sorted(ch))}', '_chains(set)', (lo, hi))
-        if seq is not None:
+        if seq is not None and len(ch) <= MAX_PATHS_SEQ * scale:
             add(f'seq_ok {a} {pl(seq)}', '_chains(add sequence, deque loop model)', (lo, hi))
         elif small:
             add(f'loop_ok {a}', 'loop model == generation model', (lo, hi))
-        if len(ch) > MAX_PATHS_FRAGS:
+        if len(ch) > MAX_PATHS_FRAGS * scale:
             continue
         frd = m._fragments(lo, hi)
         fr = sorted((enc(k), sorted(v)) for k, v in frd.items())
